@@ -1,3 +1,4 @@
+mod c04;
 mod c05_extra;
 mod c06;
 mod c07;
@@ -19,7 +20,7 @@ use fw::*;
 use std::path::Path;
 
 fn registry() -> Vec<&'static CheckDef> {
-    vec![&checks_play::C01, &checks_play::C02, &checks_play::C03, &checks_play::C05, &c06::C06, &c07::C07, &c10::C10, &engine::C11, &engine::C12, &engine::C13, &c15::C15, &enums::C08, &enums::C09, &enums::C14, &enums::C16, &enums::C17, &c18::C18, &c19::C19, &c20::C20]
+    vec![&checks_play::C01, &checks_play::C02, &checks_play::C03, &c04::C04, &checks_play::C05, &c06::C06, &c07::C07, &c10::C10, &engine::C11, &engine::C12, &engine::C13, &c15::C15, &enums::C08, &enums::C09, &enums::C14, &enums::C16, &enums::C17, &c18::C18, &c19::C19, &c20::C20]
 }
 
 fn find(id: &str) -> &'static CheckDef {
